@@ -1165,6 +1165,10 @@ pub fn run(tier: &str, seed: u64, em: &mut Emitter) {
     let mut short = hostile_strings(1);
     short.push("-".to_owned()); // absent optional field
     short.push("a,,b".to_owned()); // list field with an empty element
+    // characters that quoted header parameters (Content-Disposition filename) escape (seed4 C16-2)
+    for x in ["\\", "\"", "a\\", "\"a\"", "a\\\"", "\\\\", "C:\\dir\\"] {
+        short.push(x.to_owned());
+    }
     for ep in &table {
         let meta = (ep.meta)();
         let h = Hist::of(&all, &meta.history);
